@@ -158,6 +158,22 @@ CLAIMS = {
              'the hand and in two cells) and on members; oracles on the code: pairs differing in exactly one feature (type/status/colour of a cell, pose, '
              'heading, held item, box content) -- representation equal iff ==, == implies equal hash() --, marker, positional entries, channel disjointness, density.',
         design='8/C16', note=TB + ' Observations of a space are those facing FORWARD (the only heading an observation function produces); the observation encodings have no heading channel.'),
+    'C17': dict(
+        level='proof',
+        technique='Coq proof of the component-factory layer (lookup, required / accepted parameters, selection, rejection class, ignored parameters) over arbitrary registries + kernel evaluation on the regenerated signature and configuration tables + three-way trajectory comparison (factory-built / assembled by hand / model) and systematic corruptions on the code',
+        text='Coq theorems (Props/C17.v): factory(name, **kw) returns the first registered function named `name` with EXACTLY the accepted entries of kw bound '
+             '(order and values kept) iff every required key is given (an iff for arbitrary registries, names, keyword sets); it is rejected exactly for an unknown name '
+             'or a missing required parameter, always with ValueError; parameters a component does not accept are ignored wherever they stand; by kernel '
+             'evaluation on Gen/Signatures.v + Gen/Configs.v (regenerated from the registries and YAML files of /repo on every run): every component entry of every '
+             'shipped configuration passes its factory, names are unique per registry, packaged copies are byte-identical, every gym id points to a packaged file.  '
+             'The composition laws (reward list = sum in order, transition list = chain in order) are C12 / C01 theorems.  NOT modelled: validation of malformed '
+             'trees by the `schema` library -- that clause is decided by an oracle on the code: ~45 systematic corruptions of each of the 21 shipped trees '
+             '(missing / unknown keys, unknown components, each required parameter dropped, malformed shapes, colours, actions, object types, duplicates, empty '
+             'lists) must be rejected with a schema or value error and never yield an environment; unaccepted parameters must be ignored without changing behaviour.  '
+             'Tie: T2 on the real factory functions of all six registries (which function and which keywords are bound, values passed unchanged, falsy values included); '
+             'for every shipped file the factory-built environment, an environment assembled by hand with functools.partial from the registered functions, and the '
+             'model environment must produce identical trajectories (mid-episode resets, state and observation reads); input tree unchanged; building twice repeatable.',
+        design='8/C17', note=TB + ' PyYAML is absent in this sandbox: YAML text is parsed by vt/miniyaml.py (token-audited); byte-identity of packaged copies and the gym-id table are computed by the translator.'),
     'C18': dict(
         level='proof',
         technique='Coq proof over unbounded Z (group laws, linear isometric action, transform group, area image, grid rotation) + regenerated tables + differential check',
